@@ -359,6 +359,79 @@ def chk_atheris(case, note):
     return fuzzleg.judge(case, note, fuzz_check)
 
 
+# ------------------------------------------------------------------ the real run() loop on a scripted socket (pieces and receive timeouts)
+class _Stop(Exception):
+    pass
+
+
+class _Sock:
+    def __init__(self, script):
+        self.script = list(script)
+
+    def recv(self, n):
+        import zmq
+        if not self.script:
+            raise _Stop()
+        x = self.script.pop(0)
+        if x is None:
+            raise zmq.error.Again()
+        return bytes(x)
+
+    def close(self):
+        pass
+
+
+class _Client(TcpClient):
+    def connect(self):
+        self.socket = _Sock(self.script)
+
+    def handle_messages(self, messages):
+        self.got.extend(messages)
+
+
+@st.composite
+def s_runloop(draw):
+    fmt = draw(st.sampled_from(["beast", "beast", "raw", "skysense"]))
+    fs = {"beast": beast_frame, "raw": raw_frame, "skysense": sky_frame}[fmt]
+    return {"fmt": fmt, "frames": draw(st.lists(fs(), min_size=1, max_size=6)), "cuts": draw(st.lists(gen.uint(0, 10 ** 6), min_size=0, max_size=10)),
+            "timeouts": draw(st.lists(gen.uint(0, 12), min_size=0, max_size=5))}
+
+
+def chk_runloop(case, note):
+    fmt = case["fmt"]
+    stream, exp, done_at = build(case)
+    want = [m for m in exp if m is not None]
+    n = len(stream)
+    variants = [[], [1 + x % max(1, n - 1) for x in case["cuts"]]] + [[c] for c in range(1, n, max(1, n // 16))]
+    for cuts in variants:
+        bounds = sorted(set(x for x in cuts if 0 < x < n)) + [n]
+        script, pos = [], 0
+        for k, b in enumerate(bounds):
+            script.append(stream[pos:b])
+            pos = b
+            if k in case["timeouts"]:
+                script.append(None)  # the socket times out between two pieces (zmq.error.Again)
+        cl = _Client("localhost", 0, fmt)
+        cl.script, cl.got = script, []
+        try:
+            cl.run()
+            return "[%s] run() returned although the socket never closed" % fmt
+        except _Stop:
+            pass
+        except Exception as e:  # noqa
+            return "[%s] run() raised %s: %s (cuts %r, timeouts after pieces %r)" % (fmt, type(e).__name__, e, bounds[:-1][:6], case["timeouts"])
+        got = [(m[0], round(m[1], 9)) for m in cl.got] if fmt == "skysense" else [m[0] for m in cl.got]
+        if got != want:
+            return "[%s] run() with cuts %r and receive timeouts after pieces %r handed %r to handle_messages, transmitted %r" % (
+                fmt, bounds[:-1][:6], case["timeouts"], got, want)
+    note.evals = len(variants)
+    note.cls("run-" + fmt)
+    if case["timeouts"]:
+        note.cls("with-timeouts")
+    note.nt(n > 2 and bool(case["timeouts"]), key=[fmt, case["frames"], case["timeouts"]])
+    return None
+
+
 # ------------------------------------------------------------------ reader + NetSource end to end (as run() wires them)
 @st.composite
 def s_pipeline(draw):
@@ -417,6 +490,7 @@ def chk_pipeline(case, note):
 
 
 LEGS = [
+    Leg("run_loop", chk_runloop, strategy=s_runloop, quick=500, thorough=15000, doc="TcpClient.run() itself on a scripted socket: pieces interleaved with receive timeouts"),
     Leg("pipeline", chk_pipeline, strategy=s_pipeline, quick=600, thorough=20000, doc="reader output fed to NetSource.handle_messages under several segmentations: everything transmitted is forwarded once, in order"),
     Leg("atheris_streams", chk_atheris, enum=enum_atheris, shards_quick=1, shards_thorough=4, doc="libFuzzer campaign: bytes -> frames + cut list, chunk-independence oracle inside the target (thorough tier only)"),
     Leg("chunking", chk_stream, strategy=s_stream, quick=1200, thorough=24000, doc="whole / every single cut / 1-byte pieces / drawn multi-cut, all formats"),
